@@ -15,7 +15,7 @@ func init() {
 		"Structural necessary conditions of token accounting, decided on every path of the analysed functions: every token goroutine is counted before it starts and uncounted exactly once on every exit (R1); every request taken from a node mailbox is answered, parked, delegated or reported on every path and never answered twice, a releasing join hands each parked token exactly one action and empties its parked list / counter (R2,R3,R3d); every message type posted has a handler (R5) and every action type an interpreter, enum switches are exhaustive (R6); forked flows start only after the FlowTrace that announces them, a terminal trace is the last trace, leave/move/visit are ordered, every token exit is announced (R7-R10); the element->node mapping is frozen before use (R13); process and sub-process build and register the same 18 node kinds with checked constructor errors (R36). Round 2: a probed decision is final and its reply slot is cleared on every answering path (R52,R53); the inclusive join's decision depends on the identities of arrived and awaited tokens and is re-evaluated after every refresh of the cohort (R54,R59); a token that did not move never asks its node again (R57).",
 		"that conditions evaluate to the right truth value, that the number of requests equals what the token game prescribes for a given graph and data, order consistency for a given graph, final variable values (these quantify over process graphs and inputs).")
 	prop("C02", "Completion is reported iff all start events fired and no token remains",
-		[]string{"R1", "R11", "R12", "R14[WaitUntilComplete]", "R58", "R60"}, nil,
+		[]string{"R1", "R11", "R12", "R14[WaitUntilComplete]", "R58", "R60", "R77"}, nil,
 		"Decides: the wait group 'no token remains' is read from is paired (R1); CeaseFlowTrace has one send site per monitor, only in the branch that saw the flow wait group drained and after the loop that counted all start events, the completion lock is taken synchronously before the monitor goroutine exists and released on all exits, and WaitUntilComplete observes that lock (R12); the monitor's subscription must precede the start trigger (R11); WaitUntilComplete and its helper contain no unguarded blocking operation, i.e. a waiter whose context expired cannot leave a helper behind that owns the completion lock (R14). Round 2: every mutex (incl. the completion lock) is released on every path or handed over structurally (R58); start trigger, monitor and watchers run under the caller's context (R60).",
 		"bounded latency of completion, behaviour with several start events beyond the single send site, 'exactly once after every other flow trace' as a history fact.")
 	prop("C03", "Parallel gateway",
@@ -35,11 +35,11 @@ func init() {
 		"Decides: the winner is chosen by one atomic compare-and-swap on a variable that is accessed only atomically (R23); the notification of losers cannot block the winner and is not sent on a closed channel (R0,R21,R20); the termination-channel map is not shared unsynchronised between the winner's and the losers' goroutines (R25); every loser's token honours its termination channel in the same select as its pending action (R16).",
 		"'the instance goes on to complete', outcomes of particular delivery interleavings.")
 	prop("C07", "Cancellation stops everything and leaks nothing",
-		[]string{"R0", "R1", "R4", "R12", "R14", "R16", "R17", "R18", "R19", "R20", "R21", "R40", "R58", "R60", "R56"}, nil,
+		[]string{"R0", "R1", "R4", "R12", "R14", "R16", "R17", "R18", "R19", "R20", "R21", "R40", "R58", "R60", "R56", "R76", "R37"}, nil,
 		"Decides, for every goroutine the engine can start and every channel operation in the engine packages: each operation falls into a discharged class — select-guarded by a done-source or default, reply with capacity, mailbox post with a running owner, tracer protocol, closed-only/timer receive, buffered single-use (R0,R4,R14); every parking loop leaves through a done-source case and no done-source case spins (R16); what a goroutine acquired it releases on all exits: wait-group count (R1), sender handle (R17), subscription (R19), completion lock (R12); every goroutine that sends traces holds a sender handle of the tracer it sends on (R18); channels are closed once and never sent to afterwards (R20,R21). Round 2: lock pairing (R58), context agreement (R60), per-request goroutine state (R56); a registered sender handle reaches its owner goroutine on every path (R17 post-dominance).",
 		"'promptly'; that a task request racing the cancel carries a cancelled context beyond the structural binding; liveness of third-party code.")
 	prop("C08", "Task requests",
-		[]string{"R6", "R14[Do]", "R20", "R27", "R40", "R55", "R56"}, nil,
+		[]string{"R6", "R14[Do]", "R20", "R27", "R40", "R55", "R56", "R76"}, nil,
 		"Decides: Do cannot block (R14); the answer path forwards at most one response and always closes `done` exactly once (R20,R40); only declared result names / data outputs reach instance data (R27); the error-mode switch is exhaustive, the retry branch steps the counter on every path back to the select, skip falls through to the flow handling and exit returns (R6,R40). Round 2: the retry decision is taken against Reset(handler.Retries) on every path and every further attempt is stepped (R55); the per-request goroutine shares no mutable state declared outside the message loop (R56).",
 		"'first Do wins' as a value fact, retry count arithmetic.")
 	prop("C09", "Trace stream total order",
@@ -47,7 +47,7 @@ func init() {
 		"Decides: single broadcaster, sequential, non-dropping delivery to every subscriber, subscriber list confined to it, one select serving subscribe/unsubscribe/trace/terminate, Unsubscribe drains while requesting, relay forwards sequentially (R37); announce-before-start, terminal-last, leave/visit bracketing in the token goroutine (R7,R8,R9). Round 2: removal of a subscriber moves the last element into the hole, not the other way round (R63).",
 		"absence of deadlock in general (Subscribe after termination blocks), per-run order facts.")
 	prop("C10", "Boundary events",
-		[]string{"R41", "R23", "R0", "R61", "R62"}, nil,
+		[]string{"R41", "R23", "R0", "R61", "R62", "R76"}, nil,
 		"Decides: Activity.Cancel is called only inside the harness's once-only cancellation; the interrupting transformer is installed iff CancelActivity(); events reach boundary listeners only while the activity is active and `active` is set before the activity is asked and cleared after its answer is relayed (R41,R23); necessary conditions for 'normal flow never after interruption' (state written by the cancellation is read on the relay path) and for 'boundary listeners do not keep the instance from completing' (listener flows do not count on the process wait group or are terminated with the activity) (R41). Round 2: per-iteration state of the boundary-event loop does not leak between boundary events (R61); no mailbox post is lossy (R62).",
 		"interleavings of event and answer.")
 	prop("C11", "Event delivery",
@@ -79,7 +79,7 @@ func init() {
 		"Decides: lockset discipline over all mutex-bearing structs (R22), atomic-only consistency (R23), owner-goroutine confinement of node state (R24), closure-shared locals (R25), nil-map / reflect discipline (R26), dropped constructor errors (Rerr, thorough). Round 2: lock pairing on every path (R58); wait-group Add precedes the go statement (R1).",
 		"races on memory that has no discipline to infer; 'the outcome is one the sequential semantics allows'.")
 	prop("C18", "Process set",
-		[]string{"R1", "R11", "R14[WaitUntilComplete]", "R20", "R22", "R35", "R46", "R58", "R60", "R64", "R62"}, nil,
+		[]string{"R1", "R11", "R14[WaitUntilComplete]", "R20", "R22", "R35", "R46", "R58", "R60", "R64", "R62", "R77"}, nil,
 		"Decides: `done` closed once (R20); watchers subscribed before the process they watch starts (R11); wait-group pairing (R1); exactly one Send(CeaseProcessSetTrace) site followed by return, one instantiation per throw message (R46); WaitUntilComplete has an escape (R14); the catch registry is locked (R22). Round 2: each instantiated process gets resources created in its own iteration (R64); the post of a throw to the set's mailbox cannot be dropped (R62); lock pairing and context agreement (R58,R60).",
 		"'returns true exactly when all completed' under all interleavings.")
 	prop("C19", "Builder output",
